@@ -132,12 +132,35 @@ def shard_programs(cfgname, seed, count):
     return acc
 
 
+def shard_witness(which, part, nparts, seed, members):
+    """one word for every path of armulator's decoder joint with the reference table (plus solver-generated members of each region):
+    the cube representatives of the 2^32 word space, each stepped in a generated state on a random configuration"""
+    from vf.props import decode_common as dc
+    if which == 'arm':
+        from vf.props.c06 import SPEC as spec
+    else:
+        from vf.props.c07 import SPEC32 as spec
+    acc = Acc()
+    rng = random.Random(seed)
+    n_arm, joint = spec.compute_joint()
+    for j, (w, a, row, trace) in enumerate(joint):
+        if j % nparts != part:
+            continue
+        for word in [w] + dc.members(w, trace, 32, rng, members):
+            cfgname = rng.choice(ALL_CFG)
+            code = e1.enc_arm(word) if which == 'arm' else e1.enc_thumb(word, True) + b'\x00\xbf'
+            case = gen.step_case(rng, cfgname, which != 'arm', code, hooked=rng.random() < 0.3)
+            check_case(acc, case, 'witness/' + which, ('wit', which, cfgname, word, case['state']['cpsr']))
+    return acc
+
+
 ALL_CFG = list(gen.CONFIGS)
 
 
 def run(ctx):
     ctx.rule = ('emulate_cycle() on: every 16-bit Thumb halfword (32-bit starters paired with a generated second halfword) in each IT '
-                'position {outside, first, middle, last}; random / test-suite-derived ARM and 32-bit Thumb words; random 2-20 step programs; '
+                'position {outside, first, middle, last}; one witness + solver-generated members for every joint decoder region of the 32-bit Thumb '
+                'space (and of the ARM space in the thorough tier); random / test-suite-derived ARM and 32-bit Thumb words; random 2-20 step programs; '
                 'each in a generated valid state (every mode, MPU/MMU on and off, registers pointing into / next to / away from memory, '
                 'code at 0, mid-space, high vectors and the last bytes below 2^32) on configurations ' + ', '.join(ALL_CFG) + '. '
                 'Oracle: validity predicate - the call returns (completed or architectural exception taken) or raises NotImplementedError '
@@ -163,6 +186,13 @@ def run(ctx):
             k += 1
         tasks.append((shard_programs, (c, ctx.shard_seed(k), ctx.n(400, 8000))))
         k += 1
+    from vf.props import c07
+    c07.SPEC32.compute_joint()
+    tasks += [(shard_witness, ('t32', i, 8, ctx.shard_seed(k + i), ctx.n(6, 40))) for i in range(8)]
+    if not ctx.quick:
+        from vf.props import c06
+        c06.SPEC.compute_joint()
+        tasks += [(shard_witness, ('arm', i, 16, ctx.shard_seed(k + 50 + i), 40)) for i in range(16)]
     ctx.pmap(_dispatch, tasks)
     ctx.acc.extra['t16_exhaustive_configs'] = cfgs16
 
